@@ -15,8 +15,14 @@ Decided: 413 <=> wire size > cap or decoded size > cap; never more than cap+1 by
 stream; 415 <=> coding names no enabled codec; 400 <=> decoder fails with a non-limit error;
 otherwise the RPC layer gets exactly the decoded bytes (or the wire bytes when no coding is named).
 
-Truncated frames are decided on the real ``_decompress_body_gzip`` / ``_decompress_body_zstd`` over
-the C18 codec stubs (a truncated frame delivers a prefix and never reports its end).
+Further items (each a genuine defect of the pinned tree, kept as stated, with a real-app replay):
+* ``Content-Encoding: identity`` (the no-op coding) must pass through like an unencoded body;
+* paths the factory exempts from the wire cap must still not have more than cap+1 body bytes read;
+* ``_DrainRequestMiddleware.process_response`` (runs after every request, also after a 413) must
+  not turn the refused body into one bytes object;
+* truncated gzip members / zstd frames are decided on the real ``_decompress_body_gzip`` /
+  ``_decompress_body_zstd`` over the C18 codec stubs (a truncated frame delivers a prefix and never
+  reports its end): they must raise (-> 400), not return the prefix.
 """
 
 from __future__ import annotations
@@ -592,7 +598,7 @@ def _replay_truncated(codec: str, args: dict) -> str | None:
                 via = f"; middleware answered {e.status}"
             return (
                 f"decompress({enc.name}, <{label}>, max_output_size={c}) returned {len(got)} bytes "
-                f"({'the whole plaintext although the end of the frame is missing' if got == full else 'a strict prefix of the plaintext'}) instead of raising" + via
+                f"({'the whole plaintext although the end of the frame is missing' if got == full else ('a strict prefix of the plaintext' if full.startswith(got) else 'not the plaintext')}) instead of raising" + via
             )
     return None
 
